@@ -223,7 +223,19 @@ func reflectConfig(r *rand.Rand) string {
 		}
 		if len(cands) > 0 {
 			c := cands[r.Intn(len(cands))]
-			gl[c[0]] = []any{nil, "", map[string]any{}}[r.Intn(3)]
+			if r.Intn(2) == 0 {
+				// the bare combination: nothing else in the document that could make the loader give up before it
+				// reaches the receiver's defaults
+				min := map[string]any{
+					"global":    map[string]any{c[0]: []any{nil, nil, ""}[r.Intn(3)]},
+					"receivers": []any{map[string]any{"name": "r0", c[1]: []any{map[string]any{}}}},
+					"route":     map[string]any{"receiver": "r0"},
+				}
+				if b, err := yaml.Marshal(min); err == nil {
+					return string(b)
+				}
+			}
+			gl[c[0]] = []any{nil, nil, "", map[string]any{}}[r.Intn(4)]
 			item := map[string]any{}
 			if r.Intn(2) == 0 {
 				for _, f := range kinds {
